@@ -38,7 +38,11 @@ func urlDecision(c *Ctx, p *packages.Package, fd *ast.FuncDecl) {
 			}
 		}
 	}
-	d := &denum{info: info, pkg: p.Types, inits: inits, limit: 20000}
+	decls := map[types.Object]*ast.FuncDecl{}
+	for _, f := range allFuncDecls(p) {
+		decls[info.Defs[f.Name]] = f
+	}
+	d := &denum{info: info, pkg: p.Types, inits: inits, limit: 20000, decls: decls}
 	fall := d.run(fd.Body.List, []dstate{{env: map[types.Object]ast.Expr{}}})
 	if d.undecided != "" {
 		c.undec("C04.R1", key+"|shape", c.pos(fd.Pos()), "templ.URL contains "+d.undecided+"; its paths cannot be enumerated")
@@ -71,7 +75,37 @@ func urlDecision(c *Ctx, p *packages.Package, fd *ast.FuncDecl) {
 		id, ok := ast.Unparen(call.Args[0]).(*ast.Ident)
 		return ok && info.ObjectOf(id) == param && v == ":"
 	}
+	// strings.Cut(param, ":"): result 0 is the text before the first colon (the whole input when there is none),
+	// result 2 says whether there is a colon
+	isCutAtColon := func(e ast.Expr) bool {
+		call, ok := ast.Unparen(e).(*ast.CallExpr)
+		if !ok || len(call.Args) != 2 {
+			return false
+		}
+		fn := calleeOf(info, call)
+		if fn == nil || fullName(fn) != "strings.Cut" {
+			return false
+		}
+		sep, _ := constString(info, call.Args[1])
+		id, ok := ast.Unparen(call.Args[0]).(*ast.Ident)
+		return ok && info.ObjectOf(id) == param && sep == ":"
+	}
+	cutResult := func(e ast.Expr, env map[types.Object]ast.Expr) int { // -1: not a result of the cut
+		x := d.deref(e, env)
+		if isCutAtColon(x) {
+			return 0
+		}
+		if ix, ok := x.(*ast.IndexExpr); ok && isCutAtColon(ix.X) {
+			if bl, ok := ix.Index.(*ast.BasicLit); ok {
+				return int(bl.Value[0] - '0')
+			}
+		}
+		return -1
+	}
 	isPrefix := func(e ast.Expr, env map[types.Object]ast.Expr) bool { // param[:firstColon]
+		if cutResult(e, env) == 0 {
+			return true
+		}
 		sl, ok := d.deref(e, env).(*ast.SliceExpr)
 		if !ok || sl.Low != nil || sl.High == nil {
 			return false
@@ -88,6 +122,9 @@ func urlDecision(c *Ctx, p *packages.Package, fd *ast.FuncDecl) {
 	classify := func(pc pathCond, env map[types.Object]ast.Expr) atom {
 		e := ast.Unparen(pc.Expr)
 		un := atom{kind: "unknown", val: pc.Val, text: types.ExprString(e)}
+		if cutResult(e, env) == 2 {
+			return atom{kind: "colon", val: pc.Val, text: un.text}
+		}
 		switch x := e.(type) {
 		case *ast.BinaryExpr:
 			// index comparisons
@@ -245,7 +282,7 @@ func urlDecision(c *Ctx, p *packages.Package, fd *ast.FuncDecl) {
 		if call, ok := n.(*ast.CallExpr); ok {
 			if fn := calleeOf(info, call); fn != nil && fn.Pkg() != nil && fn.Pkg().Path() == "strings" {
 				switch fn.Name() {
-				case "IndexRune", "IndexByte", "Index", "ContainsRune", "Contains", "ContainsAny", "EqualFold", "ToLower", "ToUpper":
+				case "IndexRune", "IndexByte", "Index", "ContainsRune", "Contains", "ContainsAny", "EqualFold", "ToLower", "ToUpper", "Cut", "HasPrefix", "HasSuffix", "Count", "LastIndex", "LastIndexByte":
 				default:
 					norm = fn.Name()
 				}
